@@ -390,6 +390,11 @@ def unknown_is_deferred(F, rep):
             order = [id(y) for y in nodes(fn_body(fn))]
             for i_ in nodes(fn_body(fn), "If"):
                 c_ = peel(i_["c"])
+                if c_.get("k") == "Path" and c_.get("res") == "Local":
+                    # `let callee_unknown = matches!(..); if callee_unknown { .. }`
+                    o_ = fl.origin.get(c_["hid"])
+                    if o_ and o_["kind"] == "let" and o_.get("path") == () and o_.get("src") is not None:
+                        c_ = peel(o_["src"])
                 if not (c_.get("k") == "Match" and "matches" in (c_.get("mac") or [])):
                     continue
                 sc_ = peel(c_["scrut"])
